@@ -110,7 +110,7 @@ def gen_case(seed: int, idx: int) -> dict[str, Any]:
 
 
 def gen_cases(tier: str, seed: int) -> list[dict[str, Any]]:
-    n = 240 if tier == "quick" else 8000
+    n = 240 if tier == "quick" else 40000
     return [gen_case(seed, i) for i in range(n)]
 
 
